@@ -745,6 +745,8 @@ class Path(parent.Geometry):
         )
 
         cache = {}
+        # drop anything invalidated by an edit since the last access
+        self._cache.verify()
         # try to copy the cache over to the new object
         try:
             # save dict keys before doing slow iteration
